@@ -1,6 +1,6 @@
 # table consumed by tools_manifest.py
 ENGINES = [
-    {"name": "vv", "path": "vv/", "serves_properties": ["C05", "C09", "C13", "C19"], "kind_free_text": "runtime monitors: generators, independent flatbuffer reader/writer, compile drivers, sharded worker harness, evidence/findings"},
+    {"name": "vv", "path": "vv/", "serves_properties": ["C05", "C09", "C13", "C17", "C18", "C19"], "kind_free_text": "runtime monitors: generators, independent flatbuffer reader/writer, compile drivers, sharded worker harness, evidence/findings"},
 ]
 NOTES = ("Technique family: runtime monitoring and sanitizers. Every check runs the real code from /repo's working tree (codec rebuilt from the C "
          "sources on every run) under generated workloads with oracles observing executions; verdicts are violated / held-on-what-was-observed / "
@@ -39,3 +39,19 @@ check("C05", "exploration",
       "hook on attempt_bottleneck_fix/allocate_indices asserts the iteration bound online; the same oracle wraps every allocator call of real compilations.",
       "Reported total is accepted within the allocator's own alignment rounding (max_end <= total < max_end + granule); small scopes are bounded as stated in the evidence.",
       "runtime contract (oracle on return values) + online iteration-bound hook", "DESIGN.md 4/C05")
+
+check("C17", "exploration",
+      "Independent frame parser over api.npu_create_driver_payload for every length 0..600 (0..4096 thorough), boundary lengths around 2^16/2^17, random lengths, "
+      "four word styles x 6 accelerators: COP1 tag, config action vs frozen per-accelerator constants, 16-byte alignment of the first command word, 24-bit length "
+      "field, words unmodified little-endian, no trailing bytes; streams of 2^24 words and more must raise a Vela error; command-stream tensors of real output models "
+      "are parsed the same way and must end in NPU_OP_STOP.",
+      "Expected config/id words are frozen constants from the architecture description; the 2^24-1 accepted-boundary probe runs in the thorough tier only.",
+      "runtime frame parser (offline checker over produced payloads)", "DESIGN.md 4/C17")
+
+check("C18", "exploration",
+      "Reference-model monitor: a resolver written from OPTIONS.md (transitive inherit with child override, defaults of 1, internal-default, CLI override only when "
+      "given, Sram->OnChipFlash rewrite, validity rules) is compared attribute by attribute with ArchitectureFeatures built from generated .ini files (35% hostile: "
+      "self-inheritance, cycles, missing parents, out-of-range sizes, illegal mappings, unknown sections) and with --verbose-config output of the real CLI invoked "
+      "from three working directories with Dir/file.ini, absolute and generated configuration files.",
+      "The resolver is my reading of OPTIONS.md; invalid configurations must raise a VelaError subclass (direct) or exit non-zero without traceback (CLI).",
+      "reference-model runtime monitor on ArchitectureFeatures and CLI output", "DESIGN.md 4/C18")
